@@ -150,6 +150,15 @@ func execC20(sc *core.Scenario) *core.Result {
 				n = 1
 			}
 			cp := &simos.CrashPoint{Event: sel % n, When: []string{"before", "after", "torn"}[(sel/n)%3], Prefix: sel % 97}
+			if sel%5 < 3 {
+				// more often than not the earlier store died late, between two of its last calls: that is
+				// where multi-step installs (link/rename/unlink sequences) leave their in-between states
+				k := 4
+				if n < k {
+					k = n
+				}
+				cp = &simos.CrashPoint{Event: n - 1 - (sel/5)%k, When: "after"}
+			}
 			pre.ResetPlan()
 			pre.Crash, pre.Killer = cp, verifsim.Kill
 			simos.Mount(pre)
